@@ -117,6 +117,14 @@ def model_pipeline(res, known, tier, seed):
     if thorough:
         runs.append(("pipeline_abc", {"MaxLen": 2, "MaxSize": 3, "NAtoms": 3, "DevFinals": "TRUE", "Sampled": "FALSE", "WithRep": "TRUE"}, None))
     plans = {}
+    # liveness: every fair run terminates, stages only advance, earlier results are never rewritten
+    m = vlib.run_model("Pipeline", constants={"MaxLen": 2, "MaxSize": 3 if thorough else 2, "NAtoms": 2, "DevFinals": "TRUE", "Sampled": "FALSE",
+                                              "WithRep": "TRUE"}, invariants=["SortInv"], properties=["Terminates", "Progress", "WriteOnce"],
+                       tag="pipeline_live", spec="FairSpec")
+    if m["violated"]:
+        raise ToolError("bounded model pipeline_live violates %s" % m["violated"])
+    res.models.append({"model": "MC_Pipeline", "tag": "pipeline_live", "constants": m["constants"], "states": m["states"],
+                       "transitions": m["transitions"], "temporal_properties": ["Terminates (under WF)", "Progress", "WriteOnce"], "violated": []})
     for tag, consts, sim in runs:
         m = vlib.run_model("Pipeline", constants=consts, invariants=PIPE_INV, tag=tag, simulate=sim, workers=(4 if sim else None))
         res.states += m["states"]
